@@ -344,7 +344,7 @@ func genHandlerCase(r *c.Rng) *Case {
 	// the store keeps challenges as JSON: an identifier or token that is not valid UTF-8 cannot be stored as such
 	k.Value, k.Token = strings.ToValidUTF8(k.Value, "\ufffd"), strings.ToValidUTF8(k.Token, "\ufffd")
 	if k.DA != nil {
-		k.DA.AuthzFail, k.DA.AuthzOther = false, false // which authorization is loaded is decided by the URL here
+		k.DA.AuthzFail, k.DA.AuthzOther, k.DA.AuthzNotOwn, k.DA.AuthzLists = false, false, false, false // decided by the URL here
 	}
 	h := &HandlerW{Requester: k.Acct, AzURL: "own"}
 	k.H = h
